@@ -316,7 +316,7 @@ def run(tier, replay=None):
     rep.floor('text-accepting entry points (K0)', len(r0['eps']), 40)
     rep.floor('likely-subtags / direction entry points (K1)', len(r1['likely']), 3)
     rep.floor('panic-capable sites (K1)', len(r1['sites']), 6)    # 18 today (DESIGN B.1); only the six table indexings of maximize are structural - a refactor may remove the others
-    rep.floor('loops (K0)', r0['loops'], 12)
+    rep.floor('loops (K0)', r0['loops'], 5)     # the five token-stream parsers; Display loops may legitimately become iterator adaptors
     rep.extra['entry_points'] = {'K0': r0['eps'] + r0['likely'], 'K1_extra': sorted(set(r1['eps'] + r1['likely']) - set(r0['eps'] + r0['likely']))}
     rep.explanation = ('Every panic-capable site (assert terminators, panicking std calls, unwrap/expect, explicit panics) reachable in the resolved '
                        'call graph from a derived entry point is an obligation, discharged only if no abstract path reaches it (byte-string shapes for '
